@@ -1,6 +1,7 @@
 import NanoVerif.Props.C06
 import NanoVerif.Props.C01
 import NanoVerif.Props.C02
+import NanoVerif.Proofs.ColrSvg
 /-
 C13 — COLR-to-SVG conversion preserves the picture for supported paint graphs (per-step theorems).
 `V` is the font→viewBox map (`map_font_space_to_viewbox`, the inverse of the C01 placement).
@@ -73,5 +74,31 @@ theorem fontToViewBox_inverts_placement (vb : Rect) (asc desc width : Q) (hd : d
   have e : specPlacement vb asc desc width p = t.app p := by
     rw [Aff.app]; exact this.symm
   rw [e, inv_app hinv]
+
+/-- **C13 (whole walk)**: for every paint graph of the supported subset — any nesting of PaintColrLayers,
+transform paints and SRC_IN/black group composites above PaintGlyphs whose fill is solid or a linear gradient
+under any chain of transforms — the list of elements `_colr_v1_paint_to_svg` emits for the glyph's root paint
+shows at the viewBox point `V x` exactly what the COLR graph shows at the font-space point `x`.  For every
+interpretation of pixels and outline coverage that satisfies the laws of source-over. -/
+theorem colr_to_svg_preserves {α} (E : PixAlg α) (L : PixLaws E) (V : Aff) (hV : Invertible V) (p : CP)
+    (hwf : WFAt V Aff.id p) (x : Pt) :
+    colrRender E p x = E.comp (svgRenderList E V (toSvg V Aff.id p) (V.app x)) := by
+  have := toSvg_correct E L V hV p Aff.id id_invertible hwf x
+  rwa [inv_id_app] at this
+
+/-- a pixel algebra satisfying the laws exists (max-blending of naturals), so the theorem is not vacuous … -/
+def maxAlg : PixAlg Nat :=
+  { clear := 0, over := max, fade := fun _ x => x, inside := fun o p => decide (p.x = (o : Q)),
+    solidPix := fun c _ => c + 1, linePix := fun l _ => l + 1 }
+theorem maxAlg_laws : PixLaws maxAlg :=
+  ⟨fun a b c => by simp [maxAlg, Nat.max_assoc], fun a => by simp [maxAlg], fun a => by simp [maxAlg]⟩
+
+/-- … and a graph with nested layers, a transform above a glyph and a transform between a glyph and its gradient
+meets the well-formedness hypothesis -/
+example : WFAt ⟨1/10, 0, 0, -1/10, 0, 80⟩ Aff.id
+    (.layers [.glyph 1 (.solid 2 (1/2)),
+              .transform ⟨1, 0, 0, 1, 10, 0⟩ (.group (1/2) (.layers [.glyph 2 (.transform ⟨2, 0, 0, 2, 0, 0⟩ (.lin ⟨⟨0, 0⟩, ⟨100, 0⟩, ⟨0, 100⟩⟩ 0))]))]) := by
+  simp only [WFAt, WFList, FillOK, pathTr]
+  norm_num [C06.Invertible, Aff.det, Aff.mul, Aff.id, Aff.composeLtr, Aff.inverseEps, qabs, eps, FLOAT_EPSILON, mkQ_eq]
 
 end NanoVerif.C13
